@@ -47,6 +47,9 @@ func runC02(c *fw.Ctx) {
 	if c.Tier == "quick" {
 		limit = 24
 	}
-	Y, _ := CheckMaterial(c, m, "keygen", nil, limit)
+	Y, ok := CheckMaterial(c, m, "keygen", nil, limit)
+	if !ok && Y.X == nil {
+		return
+	}
 	c.Res.Sample = map[string]interface{}{"desc": c.Res.Desc, "ids": fmtIDs(ids), "group_key": fmt.Sprintf("%x", Y.Compress()), "deliveries": len(ks.Net.Delivered), "delivery_seq_head": head(ks.Net.Delivered, 10)}
 }
